@@ -634,7 +634,8 @@ func checkC05(e *Engine, r *Report) {
 }
 
 func storeBaseIsParam(fa *ssa.FieldAddr, idx int) bool {
-	// fa.X is a load of a field of … of parameter idx
+	// fa.X is a load of a field of … of parameter idx (or of a fresh
+	// allocation that replaces a nil parameter)
 	v := fa.X
 	for d := 0; d < 6; d++ {
 		if paramIndex(v) == idx {
@@ -649,7 +650,31 @@ func storeBaseIsParam(fa *ssa.FieldAddr, idx int) bool {
 				v = f2.X
 				continue
 			}
+			if al, ok := x.X.(*ssa.Alloc); ok {
+				// a local variable: every definition must be the parameter or a fresh allocation
+				sts := reachingStores(al, x)
+				if len(sts) == 0 {
+					return false
+				}
+				for _, st := range sts {
+					if paramIndex(st.Val) != idx {
+						if _, fresh := st.Val.(*ssa.Alloc); !fresh {
+							return false
+						}
+					}
+				}
+				return true
+			}
 			return false
+		case *ssa.Phi:
+			for _, ed := range x.Edges {
+				if paramIndex(ed) != idx {
+					if _, fresh := ed.(*ssa.Alloc); !fresh {
+						return false
+					}
+				}
+			}
+			return true
 		case *ssa.FieldAddr:
 			v = x.X
 		default:
